@@ -146,6 +146,19 @@ func NodeMain(args []string) int {
 // startProc starts the node as a child process. extraEnv is added to the child's environment for
 // this start only (e.g. VERIF_CRASH=flush.afterRename:3).
 func (n *Node) startProc(extraEnv []string) error {
+	var err error
+	for attempt := 0; attempt < 4; attempt++ {
+		err = n.startProcOnce(extraEnv)
+		if err == nil || StartupRace(err.Error()) == "" {
+			return err
+		}
+		// the node died of the server's start-up race (see StartupRace): start it again
+		n.StartupRaces++
+	}
+	return err
+}
+
+func (n *Node) startProcOnce(extraEnv []string) error {
 	specFile := n.Dir + ".spec.json"
 	b, _ := json.Marshal(n.spec())
 	if err := ioutil.WriteFile(specFile, b, 0644); err != nil {
@@ -182,7 +195,7 @@ func (n *Node) startProc(extraEnv []string) error {
 		case <-n.exited:
 			// died during start-up (possibly at a crash point that is hit while opening)
 			n.up = false
-			return fmt.Errorf("node process exited during start-up: %s", tailOf(n.Dir+".log", 400))
+			return fmt.Errorf("node process exited during start-up: %s", tailOf(n.Dir+".log", 3000))
 		default:
 		}
 		conn, err := net.DialTimeout("tcp", n.Addr, 200*time.Millisecond)
